@@ -286,7 +286,7 @@ def build_ocaml(comp):
         return exe, "built"
 
 
-def build_cpp(name, src, defines=(), san=True, extra=(), opt=None, std_inc=True):
+def build_cpp(name, src, defines=(), san=True, extra=(), opt=None, std_inc=True, hook=True):
     """Build a C++ driver against /repo/Include (current working tree)."""
     ensure_dirs()
     if REPO != "/repo":
@@ -297,6 +297,10 @@ def build_cpp(name, src, defines=(), san=True, extra=(), opt=None, std_inc=True)
         srcp = os.path.join(ROOT, "cpp", src)
         sanflags = ["-fsanitize=thread", "-pthread"] if san == "thread" else (SAN if san else [])
         flags = list(CXX_BASE) + sanflags + ["-D" + d for d in defines] + list(extra)
+        if not hook:
+            # the library's own growth policy (slack capacity): paths that only exist when
+            # Size() < Capacity() are not reachable with the exact-fit hook
+            flags = [f for f in flags if f != "-D" + GUARD + "=1"]
         if opt:
             flags = [f for f in flags if not f.startswith("-O")] + [opt]
         key = tree_hash([INC, srcp, os.path.join(ROOT, "cpp", "common.hpp")], " ".join(flags))
@@ -491,6 +495,16 @@ def proof_stage(rep, prop_v, comps, tables=(("Tables", "gentables.cpp"),), extra
         else:
             res["theorems"] = thms
     res["ok"] = ok
+    if ok and getattr(rep, "tier", "quick") == "thorough" and os.environ.get("VERIF_NO_COQCHK") != "1":
+        # independent re-check of the compiled closure + the axioms it relies on
+        with Lock("coq"):
+            rc, out, err = run(["bash", "-c", "ulimit -v 12000000; exec coqchk -o -silent -Q . Qv Qv." + prop_v[:-2]], cwd=COQ, timeout=2400)
+        summ = out[out.find("CONTEXT SUMMARY"):] if "CONTEXT SUMMARY" in out else (out + err)[-1500:]
+        res["coqchk"] = {"rc": rc, "summary": " ".join(summ.split())[:1500]}
+        rep.notes.append("coqchk -o Qv.%s: rc=%d %s" % (prop_v[:-2], rc, res["coqchk"]["summary"][:600]))
+        if rc != 0:
+            res["ok"] = False
+            res["log"] += "\ncoqchk failed: " + (out + err)[-2000:]
     return res
 
 
